@@ -280,7 +280,20 @@ def run_history(part, unit):
                 opt2, call = run_frontend(prob, unit['frontend'])
                 opt2._x = opt._x
                 opt = opt2
-            res = call()
+            try:
+                res = call()
+            except ValueError as exc:
+                part.transitions += 1
+                part.evals += 1
+                onb = [any(b is not None and abs(x_ - b) <= 1e-12 * max(1.0, abs(b)) for b in v_.bounds) for x_, v_ in zip(x0, prob.variables)]
+                inside = all((v_.bounds[0] is None or x_ >= v_.bounds[0]) and (v_.bounds[1] is None or x_ <= v_.bounds[1]) for x_, v_ in zip(x0, prob.variables))
+                if 'x0 lay outside the specified bounds' in str(exc) and inside and any(onb):
+                    part.violation(PID, 'optimise-from-a-valid-state-succeeds', 'DifferentialEvolution.optimize' if unit['frontend'].startswith('de') else det['site'],
+                                   'start-point-exactly-on-a-bound',
+                                   dict(det, x0=x0, bounds=[list(v_.bounds) for v_ in prob.variables]), observed=str(exc)[:120],
+                                   expected='optimize() runs from the state the previous run left')
+                    break
+                raise
             part.transitions += 1
             part.evals += 1
             stack.append(before)
